@@ -332,6 +332,7 @@ func rulesC18(c *Ctx) {
 		}
 	}
 	c.Check(stored, "C18.window", "SetTimeRange: result stored", set.Pos(), "s.Condition must receive Reduce(<parsed condition>)")
+	writebackRule(c, "C18.writeback", "Rewrite", "RewriteExpr")
 	// Reduce's boolean short-cuts decide whether the stripped `true` placeholders disappear
 	shortcutsC09(c, tt, "C18.reduce")
 }
@@ -547,4 +548,44 @@ func stringTemplates(v ssa.Value, leaf func(ssa.Value) (string, bool), depth int
 		}
 	}
 	return []string{"<?>"}
+}
+
+// writebackRule: a tree rewrite stores what the rewriter returned.
+func writebackRule(c *Ctx, rule string, fns ...string) {
+	p := c.P
+	c.Rule(rule, "in the generic tree rewriters every recursive call's result is used (stored back into the slot the child was read from, or tested and then stored): a discarded result means a replacement of that child is lost while deeper in-place edits still happen")
+	n := 0
+	for _, name := range fns {
+		f := p.SSAFunc(p.Func(name))
+		if f == nil {
+			c.Unk(rule, name, 0, "anchor not found")
+			continue
+		}
+		i := 0
+		for _, b := range f.Blocks {
+			for _, in := range b.Instrs {
+				call, ok := in.(*ssa.Call)
+				if !ok || call.Call.StaticCallee() != f {
+					continue
+				}
+				i++
+				n++
+				child := "?"
+				if len(call.Call.Args) >= 2 {
+					if _, fld, ok := fieldRef(call.Call.Args[1]); ok {
+						child = fld
+					} else if len(call.Call.Args) >= 2 {
+						child = p.TypeStr(call.Call.Args[1].Type())
+					}
+				}
+				key := fmt.Sprintf("%s: recursive call #%d on %s", name, i, child)
+				if refs := call.Referrers(); refs == nil || len(*refs) == 0 {
+					c.Bad(rule, key, call.Pos(), "the rewritten child is discarded: when the rewriter replaces this node the parent keeps the old one")
+				} else {
+					c.OK(rule, key, call.Pos(), "result used")
+				}
+			}
+		}
+	}
+	c.Floor(rule, n, 15)
 }
